@@ -1,43 +1,37 @@
 (* BlockTree/ProofsPath.v — downward paths of the rose tree, and their relation to the
-   parent-link walks (chain_fuel / anc_fuel / pcount_fuel) of the specification. *)
+   parent-link walks (chain_fuel / anc_fuel) of the specification. *)
 From Coq Require Import List NArith ZArith Bool Lia Permutation.
 From Common Require Import Outcome.
 From BlockTree Require Import Model Spec ProofsTree.
 Import ListNotations.
 Local Open Scope N_scope.
 
-(* is_path n p: p is a downward path (each element a child of the previous one) starting at n *)
-Inductive is_path : bnode -> list bnode -> Prop :=
-| ip_one n : is_path n [n]
-| ip_cons n c p : In c (nchildren n) -> is_path c p -> is_path n (n :: p).
+(* is_path n p m: p is a downward path (each element a child of the previous one) from n to m *)
+Inductive is_path : bnode -> list bnode -> bnode -> Prop :=
+| ip_one n : is_path n [n] n
+| ip_cons n c p m : In c (nchildren n) -> is_path c p m -> is_path n (n :: p) m.
 
-Lemma is_path_head n p : is_path n p -> exists q, p = n :: q.
+Lemma is_path_head n p m : is_path n p m -> exists q, p = n :: q.
 Proof. intros H; inversion H; eauto. Qed.
 
-Lemma is_path_nodes n p : is_path n p -> forall m, In m p -> In m (all_nodes n).
+Lemma is_path_nodes n p m : is_path n p m -> forall k, In k p -> In k (all_nodes n).
 Proof.
-  induction 1 as [n|n c p Hc Hp IH]; intros m Hm.
-  - destruct Hm as [<-|[]]. apply all_nodes_self.
-  - destruct Hm as [<-|Hm]; [apply all_nodes_self|]. eapply all_nodes_child; eauto.
+  induction 1 as [n|n c p m Hc Hp IH]; intros k Hk.
+  - destruct Hk as [<-|[]]. apply all_nodes_self.
+  - destruct Hk as [<-|Hk]; [apply all_nodes_self|]. eapply all_nodes_child; eauto.
 Qed.
 
-Lemma last_cons_default {A} (l : list A) a d d' : last (a :: l) d = last (a :: l) d'.
-Proof. revert a. induction l as [|b l IH]; intros a; [reflexivity|]. simpl in *. apply IH. Qed.
+Lemma is_path_end_in_path n p m : is_path n p m -> In m p.
+Proof. induction 1; simpl; auto. Qed.
 
-Lemma last_cons_in {A} (l : list A) a d : In (last (a :: l) d) (a :: l).
+Lemma is_path_end n p m : is_path n p m -> In m (all_nodes n).
+Proof. intros H. eapply is_path_nodes; eauto. eapply is_path_end_in_path; eauto. Qed.
+
+Lemma is_path_last n p m : is_path n p m -> forall d, last p d = m.
 Proof.
-  revert a. induction l as [|b l IH]; intros a; [left; reflexivity|].
-  right. change (last (a :: b :: l) d) with (last (b :: l) d). apply IH.
+  induction 1 as [n|n c p m Hc Hp IH]; intros d; [reflexivity|].
+  destruct (is_path_head _ _ _ Hp) as (q & ->). specialize (IH d). exact IH.
 Qed.
-
-Lemma is_path_last_in n p : is_path n p -> In (last p n) (all_nodes n).
-Proof.
-  intros H. eapply is_path_nodes; eauto.
-  destruct (is_path_head _ _ H) as (q & ->). apply last_cons_in.
-Qed.
-
-Lemma last_cons_cons {A} (l : list A) a b d : last (a :: b :: l) d = last (b :: l) d.
-Proof. reflexivity. Qed.
 
 Lemma path_to_unfold h n :
   path_to h n = if nhash n =? h then Some [n]
@@ -47,18 +41,15 @@ Lemma path_to_unfold h n :
                      end.
 Proof. destruct n; reflexivity. Qed.
 
-Lemma path_to_is_path h n : forall p, path_to h n = Some p -> is_path n p /\ nhash (last p n) = h.
+Lemma path_to_is_path h n : forall p, path_to h n = Some p -> exists m, is_path n p m /\ nhash m = h.
 Proof.
   induction n as [h' x a pr ch IH] using bnode_ind'. intros p. rewrite path_to_unfold.
   simpl nhash; simpl nchildren. destruct (N.eqb_spec h' h) as [->|Hne].
-  - intros H; inversion H; subst. split; [constructor|reflexivity].
+  - intros H; inversion H; subst. eexists; split; [constructor|reflexivity].
   - destruct (find_first (path_to h) ch) as [q|] eqn:E; [|discriminate].
     intros H; inversion H; subst. apply find_first_some in E as (l1 & c & l2 & -> & Hc & _).
-    rewrite Forall_forall in IH. destruct (IH c (in_elt _ _ _) q Hc) as (Hp & Hl).
-    split.
-    + econstructor; eauto. simpl. apply in_elt.
-    + destruct (is_path_head _ _ Hp) as (q' & ->).
-      rewrite last_cons_cons. rewrite (last_cons_default q' c _ c). exact Hl.
+    rewrite Forall_forall in IH. destruct (IH c (in_elt _ _ _) q Hc) as (m & Hp & Hl).
+    exists m. split; auto. econstructor; eauto. simpl. apply in_elt.
 Qed.
 
 Lemma path_to_none h n : path_to h n = None <-> ~ In h (all_hashes n).
@@ -89,133 +80,128 @@ Proof.
   - exfalso; apply N2. apply in_flat_map; eauto.
 Qed.
 
-Lemma is_path_last_hash n p : is_path n p -> In (nhash (last p n)) (all_hashes n).
-Proof. intros H. apply in_hashes_nodes. exists (last p n). split; auto. apply is_path_last_in; auto. Qed.
+Lemma node_hash_in n m : In m (all_nodes n) -> In (nhash m) (all_hashes n).
+Proof. intros H. apply in_hashes_nodes; eauto. Qed.
 
-Lemma is_path_unique n p : is_path n p -> forall q, uniq n -> is_path n q ->
-  nhash (last p n) = nhash (last q n) -> p = q.
+Lemma is_path_unique n p m : is_path n p m -> forall q m', uniq n -> is_path n q m' ->
+  nhash m = nhash m' -> p = q /\ m = m'.
 Proof.
-  induction 1 as [n|n c p Hc Hp IH]; intros q U Hq E.
-  - inversion Hq as [|? c' q' Hc' Hq']; subst; auto. exfalso.
-    destruct (is_path_head _ _ Hq') as (q'' & ->). rewrite last_cons_cons in E.
-    rewrite (last_cons_default q'' c' n c') in E. simpl in E.
+  induction 1 as [n|n c p m Hc Hp IH]; intros q m' U Hq E.
+  - inversion Hq as [|? c' q' ? Hc' Hq']; subst; auto. exfalso.
     apply uniq_children in U as (U & _). apply U. rewrite E.
-    apply in_flat_map. exists c'. split; auto. apply is_path_last_hash; auto.
-  - destruct (is_path_head _ _ Hp) as (p' & ->).
-    rewrite last_cons_cons, (last_cons_default p' c n c) in E.
-    inversion Hq as [|? c' q' Hc' Hq']; subst.
-    + exfalso. simpl in E. apply uniq_children in U as (U & _). apply U. rewrite <- E.
-      apply in_flat_map. exists c. split; auto. apply is_path_last_hash; auto.
-    + destruct (is_path_head _ _ Hq') as (q'' & ->).
-      rewrite last_cons_cons, (last_cons_default q'' c' n c') in E.
-      assert (c = c').
-      { eapply children_same; eauto.
-        - apply is_path_last_hash; eauto.
-        - rewrite E. apply is_path_last_hash; auto. }
-      subst c'. f_equal. apply IH; auto. eapply uniq_child; eauto.
+    apply in_flat_map. exists c'. split; auto. apply node_hash_in. eapply is_path_end; eauto.
+  - inversion Hq as [|? c' q' ? Hc' Hq']; subst.
+    + exfalso. apply uniq_children in U as (U & _). apply U. rewrite <- E.
+      apply in_flat_map. exists c. split; auto. apply node_hash_in. eapply is_path_end; eauto.
+    + assert (c = c').
+      { eapply (children_same n c c' (nhash m)); eauto.
+        - apply node_hash_in. eapply is_path_end; eauto.
+        - rewrite E. apply node_hash_in. eapply is_path_end; eauto. }
+      subst c'. destruct (IH q' m' (uniq_child _ _ U Hc) Hq' E) as (-> & ->). auto.
 Qed.
 
-Lemma path_to_complete h n p :
-  uniq n -> is_path n p -> nhash (last p n) = h -> path_to h n = Some p.
+Lemma path_to_complete n p m :
+  uniq n -> is_path n p m -> path_to (nhash m) n = Some p.
 Proof.
-  intros U Hp Hl. destruct (path_to h n) as [q|] eqn:E.
-  - destruct (path_to_is_path _ _ _ E) as (Hq & Hlq). f_equal. symmetry.
-    eapply is_path_unique; eauto. congruence.
-  - apply path_to_none in E. exfalso; apply E. rewrite <- Hl. apply is_path_last_hash; auto.
+  intros U Hp. destruct (path_to (nhash m) n) as [q|] eqn:E.
+  - destruct (path_to_is_path _ _ _ E) as (m' & Hq & Hlq). f_equal.
+    destruct (is_path_unique _ _ _ Hq p m U Hp Hlq); auto.
+  - apply path_to_none in E. exfalso; apply E. apply node_hash_in. eapply is_path_end; eauto.
 Qed.
 
 (* every node of the tree is reached by a path *)
-Lemma node_has_path n : forall m, In m (all_nodes n) -> exists p, is_path n p /\ last p n = m.
+Lemma node_has_path n : forall m, In m (all_nodes n) -> exists p, is_path n p m.
 Proof.
   induction n as [h x a pr ch IH] using bnode_ind'. intros m Hm.
   apply all_nodes_inv in Hm as [->|(c & Hc & Hm)].
-  - eexists; split; [constructor|reflexivity].
-  - rewrite Forall_forall in IH. destruct (IH c Hc m Hm) as (p & Hp & Hl).
-    exists (BNode h x a pr ch :: p). split; [econstructor; eauto|].
-    destruct (is_path_head _ _ Hp) as (p' & ->). rewrite last_cons_cons.
-    rewrite (last_cons_default p' c _ c). auto.
+  - eexists; constructor.
+  - rewrite Forall_forall in IH. destruct (IH c Hc m Hm) as (p & Hp).
+    exists (BNode h x a pr ch :: p). econstructor; eauto.
 Qed.
 
 (* composition and decomposition *)
-Lemma is_path_app n p m q : is_path n p -> last p n = m -> is_path m (m :: q) -> is_path n (p ++ q).
+Lemma is_path_app n p m q k : is_path n p m -> is_path m (m :: q) k -> is_path n (p ++ q) k.
 Proof.
-  induction 1 as [n|n c p Hc Hp IH]; intros Hl Hq.
-  - simpl in Hl. subst. exact Hq.
-  - destruct (is_path_head _ _ Hp) as (p' & ->). rewrite last_cons_cons in Hl.
-    rewrite (last_cons_default p' c n c) in Hl. simpl. econstructor; eauto.
-    apply (IH Hl Hq).
+  induction 1 as [n|n c p m Hc Hp IH]; intros Hq.
+  - exact Hq.
+  - simpl. econstructor; eauto.
 Qed.
 
-Lemma is_path_split n p : is_path n p -> forall p1 m p2, p = p1 ++ m :: p2 ->
-  is_path m (m :: p2) /\ is_path n (p1 ++ [m]).
+Lemma is_path_split n p m : is_path n p m -> forall p1 k p2, p = p1 ++ k :: p2 ->
+  is_path k (k :: p2) m /\ is_path n (p1 ++ [k]) k.
 Proof.
-  induction 1 as [n|n c p Hc Hp IH]; intros p1 m p2 E.
+  induction 1 as [n|n c p m Hc Hp IH]; intros p1 k p2 E.
   - destruct p1 as [|a p1]; simpl in E; inversion E; subst.
     + split; constructor.
     + destruct p1; discriminate.
   - destruct p1 as [|a p1]; simpl in E; inversion E; subst.
     + split; [econstructor; eauto|constructor].
-    + destruct (IH p1 m p2 eq_refl) as (H1 & H2). split; auto.
+    + destruct (IH p1 k p2 eq_refl) as (H1 & H2). split; auto.
       simpl. econstructor; eauto.
 Qed.
 
-Lemma last_app_single {A} (l : list A) x d : last (l ++ [x]) d = x.
-Proof. induction l as [|a l IH]; simpl; auto. destruct (l ++ [x]) eqn:E; auto. destruct l; discriminate. Qed.
-
-(* the nodes on a path to m are exactly the nodes that have m in their subtree *)
+(* the nodes on the path to m are exactly the nodes that have m in their subtree *)
 Lemma on_path_iff n p m k :
-  uniq n -> is_path n p -> last p n = m -> In k (all_nodes n) ->
-  (In k p <-> In m (all_nodes k)).
+  uniq n -> is_path n p m -> In k (all_nodes n) -> (In k p <-> In m (all_nodes k)).
 Proof.
-  intros U Hp Hl Hk. split.
+  intros U Hp Hk. split.
   - intros Hi. apply in_split in Hi as (p1 & p2 & ->).
-    destruct (is_path_split _ _ Hp p1 k p2 eq_refl) as (H1 & _).
-    replace m with (last (k :: p2) k). { apply is_path_last_in; auto. }
-    rewrite <- Hl. clear. induction p1 as [|a p1 IH]; simpl.
-    + apply last_cons_default.
-    + destruct (p1 ++ k :: p2) eqn:E; [destruct p1; discriminate|]. rewrite <- E.
-      rewrite IH. destruct p1; simpl in E; inversion E; subst; apply last_cons_default.
-  - intros Hm. destruct (node_has_path n k Hk) as (p1 & Hp1 & Hl1).
-    destruct (node_has_path k m Hm) as (p2 & Hp2 & Hl2).
-    destruct (is_path_head _ _ Hp2) as (q & ->).
-    assert (Hc : is_path n (p1 ++ q)) by (eapply is_path_app; eauto).
-    assert (p = p1 ++ q).
-    { eapply is_path_unique; eauto. rewrite Hl.
-      destruct q as [|b q].
-      - rewrite app_nil_r. simpl in Hl2. congruence.
-      - f_equal. rewrite <- Hl2. rewrite last_cons_cons.
-        clear. induction p1 as [|a p1 IH]; simpl.
-        + apply last_cons_default.
-        + destruct (p1 ++ b :: q) eqn:E; [destruct p1; discriminate|]. rewrite <- E. apply IH. }
-    subst p. apply in_or_app. left.
-    destruct (is_path_head _ _ Hp1) as (p1' & E1).
-    rewrite <- Hl1. rewrite E1. clear. revert n. induction p1' as [|a l IH]; intros n; simpl; auto.
-    destruct l; simpl; auto. right. apply (IH a).
+    destruct (is_path_split _ _ _ Hp p1 k p2 eq_refl) as (H1 & _).
+    eapply is_path_end; eauto.
+  - intros Hm. destruct (node_has_path n k Hk) as (p1 & Hp1).
+    destruct (node_has_path k m Hm) as (p2 & Hp2).
+    destruct (is_path_head _ _ _ Hp2) as (q & ->).
+    assert (Hc : is_path n (p1 ++ q) m) by (eapply is_path_app; eauto).
+    destruct (is_path_unique _ _ _ Hp _ _ U Hc eq_refl) as (-> & _).
+    apply in_or_app. left. eapply is_path_end_in_path; eauto.
 Qed.
 
 (* ------------------------------------------------------------------ numbers along a path *)
 
-Lemma is_path_numbers n p : is_path n p -> nums_okb n = true ->
-  forall i m, nth_error p i = Some m -> nnumber m = nnumber n + N.of_nat i.
+Lemma is_path_numbers n p m : is_path n p m -> nums_okb n = true ->
+  forall i k, nth_error p i = Some k -> nnumber k = nnumber n + N.of_nat i.
 Proof.
-  induction 1 as [n|n c p Hc Hp IH]; intros Hn i m Hi.
+  induction 1 as [n|n c p m Hc Hp IH]; intros Hn i k Hi.
   - destruct i as [|[|i]]; simpl in Hi; inversion Hi; subst. lia.
   - destruct i as [|i]; simpl in Hi.
     + inversion Hi; subst. lia.
     + destruct (nums_ok_child _ _ Hn Hc) as (E & Hn').
-      rewrite (IH Hn' i m Hi). lia.
+      rewrite (IH Hn' i k Hi). lia.
+Qed.
+
+Lemma is_path_end_number n p m : is_path n p m -> nums_okb n = true ->
+  nnumber m = nnumber n + N.of_nat (length p - 1).
+Proof.
+  induction 1 as [n|n c p m Hc Hp IH]; intros Hn.
+  - simpl. lia.
+  - destruct (nums_ok_child _ _ Hn Hc) as (E & Hn'). rewrite (IH Hn'), E.
+    destruct (is_path_head _ _ _ Hp) as (q & ->). simpl. lia.
 Qed.
 
 (* ------------------------------------------------------------------ paths and parent links *)
 
-(* consecutive elements of a path are edges *)
-Lemma is_path_edges n p : is_path n p -> forall p1 x y p2, p = p1 ++ x :: y :: p2 ->
-  In (edge_of x y) (edges n).
+(* linked E x q m: x :: q is a chain of edges of E ending in m *)
+Inductive linked (E : list blk) : bnode -> list bnode -> bnode -> Prop :=
+| lk_nil x : linked E x [] x
+| lk_cons x y q m : In (edge_of x y) E -> linked E y q m -> linked E x (y :: q) m.
+
+Lemma edges_child_incl n c : In c (nchildren n) -> incl (edges c) (edges n).
 Proof.
-  intros Hp p1 x y p2 E. apply edges_in. exists x, y. repeat split; auto.
-  - eapply is_path_nodes; eauto. rewrite E. apply in_elt.
-  - subst p. destruct (is_path_split _ _ Hp p1 x (y :: p2) eq_refl) as (H & _).
-    inversion H; subst. destruct (is_path_head _ _ H4) as (? & E'). inversion E'; subst. auto.
+  intros Hc b Hb. apply edges_in in Hb as (x & d & Hx & Hd & ->).
+  apply edges_in. exists x, d. repeat split; auto. eapply all_nodes_child; eauto.
+Qed.
+
+Lemma edge_child_in n c : In c (nchildren n) -> In (edge_of n c) (edges n).
+Proof. intros Hc. apply edges_in. exists n, c. repeat split; auto. apply all_nodes_self. Qed.
+
+Lemma is_path_linked n p m : is_path n p m -> forall E, incl (edges n) E ->
+  exists q, p = n :: q /\ linked E n q m.
+Proof.
+  induction 1 as [n|n c p m Hc Hp IH]; intros E HE.
+  - exists []. split; auto. constructor.
+  - destruct (IH E) as (q & -> & Hq).
+    { intros b Hb. apply HE. eapply edges_child_incl; eauto. }
+    exists (c :: q). split; auto. constructor; auto. apply HE. apply edge_child_in; auto.
 Qed.
 
 Lemma find_blk_in (bl : list blk) b :
@@ -241,36 +227,42 @@ Proof.
     + rewrite IH. split; intros H; [intros [?|?]; [congruence|auto] | intro; apply H; auto].
 Qed.
 
-(* walking the parent links from the end of a path gives the reversed path, then continues from
-   its first node *)
-Lemma chain_of_path (E : list blk) : NoDup (map b_hash E) ->
-  forall q x f, (forall p1 a b p2, x :: q = p1 ++ a :: b :: p2 -> In (edge_of a b) E) ->
-  chain_fuel (length q + f) E (nhash (last q x)) = rev (map nhash q) ++ chain_fuel f E (nhash x).
+(* walking the parent links from the end of a chain gives the reversed chain, then continues
+   from its first node *)
+Lemma chain_of_linked (E : list blk) : NoDup (map b_hash E) ->
+  forall x q m, linked E x q m -> forall f,
+  chain_fuel (length q + f) E (nhash m) = rev (map nhash q) ++ chain_fuel f E (nhash x).
 Proof.
-  intros ND q. induction q as [|y q IH]; intros x f HL.
+  intros ND x q m H. induction H as [x|x y q m Hin Hq IH]; intros f.
   - reflexivity.
-  - assert (HL' : forall p1 a b p2, y :: q = p1 ++ a :: b :: p2 -> In (edge_of a b) E).
-    { intros p1 a b p2 Eq. apply (HL (x :: p1) a b p2). simpl. f_equal. exact Eq. }
-    specialize (IH y (S f) HL').
-    replace (length (y :: q) + f)%nat with (length q + S f)%nat by (simpl; lia).
-    replace (last (y :: q) x) with (last q y).
-    2:{ clear. revert y. induction q as [|b q IHq]; intros y; auto. simpl. destruct q; auto. apply (IHq b). }
+  - replace (length (y :: q) + f)%nat with (length q + S f)%nat by (simpl; lia).
     rewrite IH. simpl rev. rewrite <- app_assoc. f_equal.
     simpl chain_fuel at 1.
-    assert (Hin : In (edge_of x y) E) by (apply (HL [] x y q); reflexivity).
     pose proof (find_blk_in E (edge_of x y) ND Hin) as Hf. simpl in Hf. rewrite Hf. reflexivity.
 Qed.
 
 Lemma chain_fuel_stop E f h : find_blk E h = None -> chain_fuel f E h = [h].
 Proof. intros H. destruct f; simpl; auto. rewrite H. auto. Qed.
 
-Lemma is_path_length n p : is_path n p -> (length p <= length (all_hashes n))%nat.
+Lemma is_path_length n p m : is_path n p m -> (length p <= length (all_hashes n))%nat.
 Proof.
-  induction 1 as [n|n c p Hc Hp IH].
+  induction 1 as [n|n c p m Hc Hp IH].
   - rewrite all_hashes_unfold. simpl. lia.
   - rewrite all_hashes_unfold. simpl. apply le_n_S.
     apply in_split in Hc as (l1 & l2 & ->). rewrite flat_map_app. simpl.
     rewrite !app_length. lia.
+Qed.
+
+(* the chain of the end of a path, for any block list that contains the tree's edges and gives
+   the top of the path no parent *)
+Lemma chain_path_gen E n p m f :
+  NoDup (map b_hash E) -> incl (edges n) E -> is_path n p m ->
+  (length p - 1 <= f)%nat ->
+  chain_fuel f E (nhash m) = rev (map nhash (tl p)) ++ chain_fuel (f - (length p - 1)) E (nhash n).
+Proof.
+  intros ND HE Hp Hf. destruct (is_path_linked _ _ _ Hp E HE) as (q & -> & Hq).
+  simpl in *. replace f with (length q + (f - length q))%nat at 1 by lia.
+  rewrite (chain_of_linked E ND _ _ _ Hq). repeat f_equal. lia.
 Qed.
 
 (* the specification's chain of h is the reversed tree path to h *)
@@ -278,19 +270,14 @@ Lemma s_chain_path t p h :
   uniq (root t) -> path_to h (root t) = Some p ->
   s_chain (abs t) h = rev (map nhash p).
 Proof.
-  intros U Hp. destruct (path_to_is_path _ _ _ Hp) as (Hip & Hl).
-  destruct (is_path_head _ _ Hip) as (q & ->).
+  intros U Hp. destruct (path_to_is_path _ _ _ Hp) as (m & Hip & <-).
   unfold s_chain, abs. simpl s_blocks.
   destruct (edges_keys_nodup _ U) as (ND & Hr).
-  pose proof (is_path_length _ _ Hip) as Hlen. rewrite edges_hashes in Hlen. simpl in Hlen.
+  pose proof (is_path_length _ _ _ Hip) as Hlen. rewrite edges_hashes in Hlen. simpl in Hlen.
   rewrite map_length in Hlen.
-  replace (length (edges (root t))) with (length q + (length (edges (root t)) - length q))%nat by lia.
-  replace h with (nhash (last q (root t))).
-  2:{ rewrite <- Hl. destruct q; auto. rewrite last_cons_cons. f_equal. apply last_cons_default. }
-  rewrite chain_of_path; auto.
-  - rewrite chain_fuel_stop. { simpl. rewrite <- app_assoc. reflexivity. }
-    apply find_blk_none. exact Hr.
-  - intros p1 a b p2 Eq. eapply is_path_edges; eauto.
+  rewrite (chain_path_gen (edges (root t)) (root t) p m); auto; [|apply incl_refl|lia].
+  rewrite chain_fuel_stop by (apply find_blk_none; exact Hr).
+  destruct (is_path_head _ _ _ Hip) as (q & ->). simpl. reflexivity.
 Qed.
 
 (* anc_fuel is membership in the chain *)
@@ -311,6 +298,12 @@ Proof.
   - intros H. exists a. split; auto. apply N.eqb_refl.
 Qed.
 
+Lemma s_chain_unknown t h : ~ In h (all_hashes (root t)) -> s_chain (abs t) h = [h].
+Proof.
+  intros H. unfold s_chain. apply chain_fuel_stop. apply find_blk_none.
+  simpl. rewrite edges_hashes in H. intro Hi. apply H. right. auto.
+Qed.
+
 (* K1: the specification's "c descends from a" is "c is in the subtree of the node a" *)
 Lemma s_desc_subtree t a c m :
   uniq (root t) -> In m (all_nodes (root t)) -> nhash m = a -> In c (all_hashes (root t)) ->
@@ -320,23 +313,24 @@ Proof.
   destruct (path_to c (root t)) as [p|] eqn:Ep.
   2:{ apply path_to_none in Ep. contradiction. }
   rewrite (s_chain_path t p c U Ep). rewrite <- in_rev.
-  destruct (path_to_is_path _ _ _ Ep) as (Hip & Hl).
-  pose proof (is_path_last_in _ _ Hip) as Hlast.
+  destruct (path_to_is_path _ _ _ Ep) as (e & Hip & He).
   rewrite in_map_iff. split.
   - intros (k & Hk & Hin). assert (k = m).
     { eapply node_eq_of_hash; eauto. eapply is_path_nodes; eauto. congruence. }
-    subst k. apply (on_path_iff _ _ (last p (root t)) m U Hip eq_refl Hm) in Hin.
+    subst k. apply (on_path_iff _ _ e m U Hip Hm) in Hin.
     apply in_hashes_nodes. eauto.
   - intros Hi. exists m. split; auto.
-    apply (on_path_iff _ _ (last p (root t)) m U Hip eq_refl Hm).
+    apply (on_path_iff _ _ e m U Hip Hm).
     apply in_hashes_nodes in Hi as (k & Hk & Hkh).
-    assert (k = last p (root t)).
-    { eapply node_eq_of_hash; eauto. eapply all_nodes_trans; eauto. congruence. }
+    assert (k = e).
+    { eapply node_eq_of_hash; eauto. eapply all_nodes_trans; eauto.
+      eapply is_path_end; eauto. congruence. }
     subst k. auto.
 Qed.
 
-Lemma s_chain_unknown t h : ~ In h (all_hashes (root t)) -> s_chain (abs t) h = [h].
+(* a hash that is not a block of the tree descends from nothing but itself, and nothing else
+   descends from it *)
+Lemma s_desc_unknown_r t a c : ~ In c (all_hashes (root t)) -> s_desc (abs t) a c = (a =? c).
 Proof.
-  intros H. unfold s_chain. apply chain_fuel_stop. apply find_blk_none.
-  simpl. rewrite edges_hashes in H. intro Hi. apply H. right. auto.
+  intros H. rewrite s_desc_chain, s_chain_unknown; auto. simpl. apply orb_false_r.
 Qed.
